@@ -79,16 +79,16 @@ def msgsetcore(url, ver=1):
 ALL_MSGSETS = ("SIGNON", "SIGNUP", "BANK", "CC", "INV", "PROF")
 
 
-def profrs_doc(p, prof_url, trailing=True, msgsets=ALL_MSGSETS):
+def profrs_doc(p, prof_url, trailing=True, msgsets=ALL_MSGSETS, closing=("Y", "Y")):
     svc = p.svc_url
     avail = {
         "SIGNON": ("SIGNONMSGSET", [("SIGNONMSGSETV1", [msgsetcore(prof_url)])]),
         "SIGNUP": ("SIGNUPMSGSET", [("SIGNUPMSGSETV1", [msgsetcore(svc), ("WEBENROLL", [("URL", "https://enroll.invalid/")]),
                                                        ("CHGUSERINFO", "N"), ("AVAILACCTS", "Y"),
                                                        ("CLIENTACTREQ", "N")])]),
-        "BANK": ("BANKMSGSET", [("BANKMSGSETV1", [msgsetcore(svc), ("CLOSINGAVAIL", "Y"),
+        "BANK": ("BANKMSGSET", [("BANKMSGSETV1", [msgsetcore(svc), ("CLOSINGAVAIL", closing[0]),
                                                   ("EMAILPROF", [("CANEMAIL", "N"), ("CANNOTIFY", "N")])])]),
-        "CC": ("CREDITCARDMSGSET", [("CREDITCARDMSGSETV1", [msgsetcore(svc), ("CLOSINGAVAIL", "Y")])]),
+        "CC": ("CREDITCARDMSGSET", [("CREDITCARDMSGSETV1", [msgsetcore(svc), ("CLOSINGAVAIL", closing[1])])]),
         "INV": ("INVSTMTMSGSET", [("INVSTMTMSGSETV1", [msgsetcore(svc), ("TRANDNLD", "Y"), ("OODNLD", "Y"),
                                                        ("POSDNLD", "Y"), ("BALDNLD", "Y"), ("CANEMAIL", "N")])]),
         "PROF": ("PROFMSGSET", [("PROFMSGSETV1", [msgsetcore(prof_url)])]),
@@ -152,6 +152,8 @@ class SimFI:
         self.frozen = False              # probe clones do not mutate
         self.trailing = True
         self.msgsets = ALL_MSGSETS
+        self.closing = ("Y", "Y")        # CLOSINGAVAIL of the bank / credit-card message sets
+        self.cookie_attrs = False
         for url in sorted({prof_url, svc_url}):
             scheme, host, port, target = url_parts_q(url)
             net.register(scheme, host, port, self.handle, target)
@@ -228,7 +230,10 @@ class SimFI:
             val = f"{self.name}-{self.cookie_n}"
             self.minted[val] = conn.id
             seen.set_cookie = val
-            headers.append(("Set-Cookie", f"sid={val}; Path=/"))
+            attrs = "; Path=/"
+            if self.cookie_attrs and conn.scheme == "https":
+                attrs += "; Secure; HttpOnly"
+            headers.append(("Set-Cookie", f"sid={val}{attrs}"))
         if raw_override is not None:
             body = raw_override
         else:
@@ -257,7 +262,7 @@ class SimFI:
             seen.sent_profile = p
             seen.sent_status = 0
             return ("PROFMSGSRSV1", [("PROFTRNRS", [("TRNUID", trnuid), status_doc(0),
-                                                    profrs_doc(p, self.prof_url, self.trailing, self.msgsets)])])
+                                                    profrs_doc(p, self.prof_url, self.trailing, self.msgsets, self.closing)])])
 
         def status_only(code, sev="INFO"):
             seen.sent_status = code
@@ -316,6 +321,9 @@ class SimFI:
                 inner = ("INVACCTINFO", [("INVACCTFROM", [("BROKERID", a["brokerid"]), ("ACCTID", a["acctid"])]),
                                          ("USPRODUCTTYPE", "OTHER"), ("CHECKING", "N"),
                                          ("SVCSTATUS", a["status"])])
+            if a.get("group") and infos and not any(k[0] == inner[0] for k in infos[-1][1]):
+                infos[-1][1].append(inner)        # *ACCTINFOs of different classes in one ACCTINFO aggregate
+                continue
             kids = []
             if a.get("desc"):
                 kids.append(("DESC", a["desc"]))
